@@ -89,7 +89,7 @@ def make_judges(ctx):
         ctx.floor_hit((ev.op, kind))
 
     def conv_judge(ev):
-        if ev.kind != 'method' or ev.op not in ('get_val', 'astype', '__float__', '__int__', '__bool__', 'raw', 'uraw') or ev.kwargs:
+        if ev.kind != 'method' or ev.op not in ('get_val', 'astype', '__float__', '__int__', '__bool__', 'raw', 'uraw', '__call__') or ev.kwargs:
             return
         x = ev.pre[0] if ev.pre else None
         if x is None or not A.usable(x) or not (1 <= x.n_word <= 24 and -8 <= x.n_frac <= x.n_word + 8):
@@ -102,7 +102,7 @@ def make_judges(ctx):
             if len(ev.args) != 1 or ev.args[0] not in (float, int):
                 return
             what = 'astype(%s)' % ev.args[0].__name__
-        elif ev.op == 'get_val':
+        elif ev.op in ('get_val', '__call__'):
             if ev.args:
                 return
             try:
@@ -112,8 +112,6 @@ def make_judges(ctx):
             if dt is not None and dt.kind == 'f' and dt.itemsize < 8:
                 ctx.skip('conv:value dtype narrower than a double')
                 return
-            if dt is not None and dt.kind in 'iu' and x.n_frac != 0:
-                what = 'get_val[int vdtype]'
         if ev.exc is not None:
             if ev.op in ('__float__', '__int__', '__bool__') and len(x.codes) > 1:
                 return      # documented: only length-1 objects convert to python scalars
@@ -131,7 +129,7 @@ def make_judges(ctx):
             except Unsupported:
                 got = None
         else:
-            floor_it = what in ('astype(int)', '__int__', 'get_val[int vdtype]')
+            floor_it = what in ('astype(int)', '__int__')
             exp = [F(R.floor_f(v)) if floor_it else v for v in vals]
             try:
                 got = exact_values(res)[0]
@@ -186,6 +184,22 @@ def run_case(case, ctx):
             _try(lambda: x.astype(int))
             _try(lambda: x.raw())
             _try(lambda: x.uraw())
+        # objects that were created from integers and got their fraction bits / values later, through raw routes
+        if nf > 0:
+            for c in (lo, hi, lo + 1 if hi > lo else lo):
+                z = Fxp(0, s, w, 0)
+                _try(lambda: z.resize(s, w, nf))
+                _try(lambda: z.equal(Fxp(c, s, w, nf, raw=True)))
+                z2 = Fxp(1, s, max(w, 2), 0)
+                _try(lambda: z2.resize(n_frac=nf, restore_val=False))
+                z3 = _try(lambda: Fxp(c, like=Fxp(0, s, w, 0), n_frac=nf, raw=True))
+                for q in (z, z2, z3):
+                    if q is not None:
+                        _try(lambda: q.get_val())
+                        _try(lambda: q())
+                        _try(lambda: float(q))
+                        _try(lambda: q.astype(float))
+                        _try(lambda: int(q))
         for c in range(lo, hi + 1):
             for x in (Fxp(c, s, w, nf, raw=True), Fxp(c / 2.0 ** nf, s, w, nf)):
                 _try(lambda: x.get_val())
